@@ -134,23 +134,6 @@ def run (E : Block → Block) (c : Ctx) : List (List UInt8) → Option (Ctx × L
       | none => none
       | some (c'', os) => some (c'', o :: os)
 
-/-- Like `run` but with an output buffer of `cap > 0` bytes, the caller looping
-until the chunk is used up, as `archive_write_zip_data` does with `zip->buf`.
-`fuel` bounds the caller's loop (it is the caller's loop, not libarchive's
-cryptor); only the driver uses this function. -/
-def updateAll (E : Block → Block) (c : Ctx) (inp : List UInt8) (cap : Nat) :
-    Nat → Option (Ctx × List UInt8)
-  | 0 => none
-  | fuel + 1 =>
-    match update E c inp cap with
-    | .oob => none
-    | .ok c' o =>
-      if o.length ≥ inp.length then some (c', o)
-      else if o.length = 0 then none
-      else match updateAll E c' (inp.drop o.length) cap fuel with
-        | none => none
-        | some (c'', o') => some (c'', o ++ o')
-
 /-- Little-endian bytes of a number (`m` bytes). -/
 def leBytes : Nat → Nat → List UInt8
   | 0, _ => []
